@@ -35,7 +35,10 @@ class ASTWalker:
         if isinstance(node, Decorator):
             node = node.func
         elif isinstance(node, OverloadedFuncDef):
-            node = node.impl
+            # Without implementation (stub-style overloads, properties with a setter) we take the first item
+            node = node.impl if node.impl is not None else node.items[0]
+            if isinstance(node, Decorator):
+                node = node.func
 
         if node in visited_nodes:  # pragma: no cover
             raise AssertionError("Node visited twice")
